@@ -416,7 +416,10 @@ Proof.
   intros H. unfold format_length. rewrite H, Nat.ltb_irrefl. simpl. reflexivity.
 Qed.
 
-Lemma format_length_pad n k a v : length v < n -> format_length n k a v = Ok (v ++ repeat (ndv k) (n - length v)).
+Lemma format_length_pad n k a v : k <> KText -> length v < n -> format_length n k a v = Ok (v ++ repeat (ndv k) (n - length v)).
+Proof. intros Hk H. unfold format_length. apply Nat.ltb_lt in H. rewrite H. destruct k; try reflexivity. congruence. Qed.
+
+Lemma format_length_text_short n a v : length v < n -> format_length n KText a v = Ok v.
 Proof. intros H. unfold format_length. apply Nat.ltb_lt in H. rewrite H. reflexivity. Qed.
 
 Lemma format_length_reject n k a v : n < length v -> a <> AObject -> format_length n k a v = Err ValueError.
@@ -426,11 +429,13 @@ Proof.
   apply Nat.ltb_lt in H. rewrite H. destruct a; simpl; try reflexivity. congruence.
 Qed.
 
-Lemma format_length_ok_length n k a v v' : a <> AObject -> format_length n k a v = Ok v' -> length v' = n.
+Lemma format_length_ok_length n k a v v' : a <> AObject -> (k = KText -> n <= length v) ->
+  format_length n k a v = Ok v' -> length v' = n.
 Proof.
-  intros Ha. unfold format_length.
+  intros Ha Hk. unfold format_length.
   destruct (length v <? n) eqn:E.
-  - intros H; inversion H; subst. apply Nat.ltb_lt in E. rewrite app_length, repeat_length. lia.
+  - apply Nat.ltb_lt in E. destruct k; intros H; inversion H; subst; try (rewrite app_length, repeat_length; lia).
+    specialize (Hk eq_refl). lia.
   - destruct (n <? length v) eqn:E2.
     + destruct a; simpl; try discriminate. congruence.
     + simpl. intros H; inversion H; subst. apply Nat.ltb_ge in E, E2. lia.
@@ -826,6 +831,7 @@ Proof.
   { destruct (n <? length v) eqn:E2; [reflexivity|]. apply Nat.ltb_ge in E2.
     pose proof (count_le_length m).
     rewrite fill_masked_all_true by lia. symmetry. apply select_all_true; lia. }
+  destruct (negb (n <? length v) && dkind_eqb (kkind k) KText); [discriminate|].
   rewrite Hsel. rewrite format_length_eq by (rewrite select_length; lia).
   intros H; injection H as <-. simpl. auto.
 Qed.
@@ -1032,31 +1038,38 @@ Lemma kid_ok_set_kids o ks k : kid_ok (set_kids o ks) k <-> kid_ok o k.
 Proof. unfold kid_ok. simpl. reflexivity. Qed.
 
 Lemma update_kid_Forall (P : kid -> Prop) id f : forall ks ks',
-  (forall k k', P k -> f k = Ok k' -> P k') ->
+  (forall k k', In k ks -> kid_id k = id -> P k -> f k = Ok k' -> P k') ->
   update_kid id f ks = Some (Ok ks') -> Forall P ks -> Forall P ks'.
 Proof.
   induction ks as [|k r IH]; intros ks' Hf H HP; simpl in H; [discriminate|].
   inversion HP; subst.
-  destruct (Nat.eqb (kid_id k) id).
-  - destruct (f k) as [k'|] eqn:E; [|discriminate]. injection H as <-. constructor; eauto.
+  destruct (Nat.eqb (kid_id k) id) eqn:Eid.
+  - destruct (f k) as [k'|] eqn:E; [|discriminate]. injection H as <-. constructor; [|assumption].
+    apply (Hf k k'); auto. left; reflexivity. apply Nat.eqb_eq; exact Eid.
   - destruct (update_kid id f r) as [[r'|e]|] eqn:U; try discriminate. injection H as <-.
-    constructor; [assumption|]. apply IH; auto.
+    constructor; [assumption|]. apply IH; auto. intros k0 k0' Hin. apply Hf. right; exact Hin.
 Qed.
 
-Lemma set_values_wf o id v o' : wf o -> set_values o id v = Done o' -> wf o'.
+(* text data are never padded: the consistency theorems need text arrays that are not shorter than the element count *)
+Definition text_fits (o : obj) (k : dkind) (a : assoc) (v : vals) : Prop := k = KText -> n_values o a <= length v.
+Definition set_fits (o : obj) (id : nat) (v : vals) : Prop :=
+  forall k, In k (kids o) -> kid_id k = id -> text_fits o (kkind k) (kassoc k) v.
+
+Lemma set_values_wf o id v o' : wf o -> set_fits o id v -> set_values o id v = Done o' -> wf o'.
 Proof.
-  intros (Wc & Wk & Wp). unfold set_values.
+  intros (Wc & Wk & Wp) HF. unfold set_values.
   destruct (update_kid _ _ _) as [[ks|e0]|] eqn:U; intros H; try discriminate. injection H as <-.
   split; [exact Wc|]. split.
   - simpl. apply Forall_forall. intros k Hk. apply kid_ok_set_kids. revert k Hk. apply Forall_forall.
     eapply update_kid_Forall; [|exact U|exact Wk].
-    intros k k' Hok. cbv beta. destruct (format_length _ _ _ v) as [v'|] eqn:F; [|discriminate]. intros E; injection E as <-.
-    unfold kid_ok. simpl. destruct (kassoc k) eqn:Ea; auto; try rewrite Ea in F; simpl in F.
-    + (eapply format_length_ok_length; [|exact F]; discriminate).
-    + (eapply format_length_ok_length; [|exact F]; discriminate).
+    intros k k' Hin Hid Hok. cbv beta. destruct (format_length _ _ _ v) as [v'|] eqn:F; [|discriminate]. intros E; injection E as <-.
+    pose proof (HF k Hin Hid) as Hfit. unfold text_fits in Hfit.
+    unfold kid_ok. simpl. destruct (kassoc k) eqn:Ea; auto; simpl in F, Hfit.
+    + (eapply format_length_ok_length; [|exact Hfit|exact F]; discriminate).
+    + (eapply format_length_ok_length; [|exact Hfit|exact F]; discriminate).
   - simpl. intros Hp. destruct (Wp Hp) as [Wp1 Wp2]. split; [exact Wp1|].
     eapply update_kid_Forall; [|exact U|exact Wp2].
-    intros k k' Hn. cbv beta. destruct (format_length _ _ _ v) as [v'|]; [|discriminate]. intros E; injection E as <-.
+    intros k k' _ _ Hn. cbv beta. destruct (format_length _ _ _ v) as [v'|]; [|discriminate]. intros E; injection E as <-.
     unfold not_cell in *. simpl. exact Hn.
 Qed.
 
@@ -1090,9 +1103,12 @@ Proof.
   destruct (format_length _ _ _ v); reflexivity.
 Qed.
 
-Lemma add_data_wf o id a k v : wf o -> (ok o = OPoints -> a <> ACell) -> wf (state_of (add_data o id a k v)).
+Definition add_fits (o : obj) (a : assoc) (k : dkind) (v : option vals) : Prop :=
+  forall vv, v = Some vv -> text_fits o k a vv.
+
+Lemma add_data_wf o id a k v : wf o -> (ok o = OPoints -> a <> ACell) -> add_fits o a k v -> wf (state_of (add_data o id a k v)).
 Proof.
-  intros (Wc & Wk & Wp) Ha. unfold add_data.
+  intros (Wc & Wk & Wp) Ha HF. unfold add_data.
   assert (G : forall nk, kid_ok o nk -> kassoc nk = a -> wf (set_kids o (kids o ++ [nk]))).
   { intros nk Hnk Hna. split; [exact Wc|]. split.
     - simpl. apply Forall_app. split; [exact Wk|]. constructor; [exact Hnk|constructor].
@@ -1100,9 +1116,10 @@ Proof.
       apply Forall_app. split; [exact Wp2|]. constructor; [|constructor]. unfold not_cell. rewrite Hna. auto. }
   destruct v as [v|].
   - destruct (format_length (n_values o a) k a v) as [v'|] eqn:F; simpl.
-    + apply G; [|reflexivity]. unfold kid_ok. simpl. destruct a; auto.
-      * (eapply format_length_ok_length; [|exact F]; discriminate).
-      * (eapply format_length_ok_length; [|exact F]; discriminate).
+    + apply G; [|reflexivity]. pose proof (HF v eq_refl) as Hfit. unfold text_fits in Hfit.
+      unfold kid_ok. simpl. destruct a; auto; simpl in F, Hfit.
+      * (eapply format_length_ok_length; [|exact Hfit|exact F]; discriminate).
+      * (eapply format_length_ok_length; [|exact Hfit|exact F]; discriminate).
     + apply G; [|reflexivity]. unfold kid_ok. simpl. auto.
   - simpl. apply G; [|reflexivity]. unfold kid_ok. simpl. auto.
 Qed.
@@ -1150,7 +1167,9 @@ Definition op_safe (fl : flags) (o : obj) (p : op) : Prop :=
   | RemoveVertices ix => valueless_safe fl o /\ (f_guard_cells fl = true \/ ok o = OPoints \/ touches o ix)
   | RemoveCells ix => f_skip_valueless fl = true \/ valued ACell (kids o)
   | MaskedCopy vm cm => (vm = None \/ cm = None) /\ (ok o = OPoints -> cm = None)
-  | _ => True
+  | SetValues id v => set_fits o id v
+  | AddData _ a k v => add_fits o a k v
+  | Reopen _ => True
   end.
 
 (* what a failing operation may leave behind *)
@@ -1207,7 +1226,7 @@ Proof.
   - intros H; injection H as H. eapply set_values_wf; eauto.
   - intros H.
     assert (G : Some (add_data o id a k v) = Some (Done o') -> (ok o = OPoints -> a <> ACell) -> wf o').
-    { intros E Ha. injection E as E. pose proof (add_data_wf o id a k v W Ha) as X. rewrite E in X. exact X. }
+    { intros E Ha. injection E as E. pose proof (add_data_wf o id a k v W Ha HS) as X. rewrite E in X. exact X. }
     destruct (ok o) eqn:Ek; destruct a; try discriminate; apply G; auto; intros; discriminate.
   - intros H; injection H as H. destruct HS as [H1 H2]. eapply selection_wf; [exact W|]. eapply masked_copy_done; eauto.
   - destruct (reopen o order) as [o1|] eqn:R; [|discriminate]. simpl. intros H; injection H as <-.
@@ -1249,7 +1268,7 @@ Proof.
     + simpl in S. injection S as S. apply set_values_failed in S. subst. exact W.
     + simpl in S.
       assert (G : Some (add_data o id a k v) = Some (Failed e o') -> (ok o = OPoints -> a <> ACell) -> wf o').
-      { intros E Ha. injection E as E. pose proof (add_data_wf o id a k v W Ha) as X. rewrite E in X. exact X. }
+      { intros E Ha. injection E as E. pose proof (add_data_wf o id a k v W Ha HS) as X. rewrite E in X. exact X. }
       destruct (ok o) eqn:Ek; destruct a; try discriminate; apply G; auto; intros; discriminate.
     + simpl in S. injection S as S. apply masked_copy_failed in S. subst. exact W.
     + simpl in S. destruct (reopen o order); discriminate.
@@ -1257,7 +1276,12 @@ Qed.
 
 (* for the repaired code only the masked-copy argument discipline remains as a side condition *)
 Definition copy_args_ok (o : obj) (p : op) : Prop :=
-  match p with MaskedCopy vm cm => (vm = None \/ cm = None) /\ (ok o = OPoints -> cm = None) | _ => True end.
+  match p with
+  | MaskedCopy vm cm => (vm = None \/ cm = None) /\ (ok o = OPoints -> cm = None)
+  | SetValues id v => set_fits o id v          (* text arrays are not padded: they must not be shorter than the count *)
+  | AddData _ a k v => add_fits o a k v
+  | _ => True
+  end.
 
 Lemma op_safe_repaired o p : copy_args_ok o p -> op_safe repaired o p.
 Proof.
